@@ -290,7 +290,24 @@ func childCases(sp *childSpec) int {
 							fc := cs.clone()
 							fc.Fault = fs
 							for sig, v := range fr.viols {
-								note(sig, v.Msg, v.Count, fc, fc.size(), idx)
+								if strings.HasPrefix(sig, "c15-panic-") {
+									note(sig, v.Msg, v.Count, fc, fc.size(), idx) // a panic under a tool failure is a violation
+									continue
+								}
+								// C15 quantifies over cluster states and event sequences, not over tool failures: what the fault
+								// stage finds is recorded (counter + smallest sample), not reported
+								run.Count("fault_stage:"+sig, int64(v.Count))
+								if b, ok := bestObs[sig]; ok && fc.size() >= b.Size {
+									b.Count += v.Count
+									continue
+								}
+								n := v.Count
+								if b, ok := bestObs[sig]; ok {
+									n += b.Count
+								}
+								raw, _ := json.Marshal(map[string]interface{}{"case": fc, "observation": v.Flow})
+								bestObs[sig] = &childViol{Sig: sig, Msg: v.Msg, Count: n, Size: fc.size(), Input: raw,
+									Case: fmt.Sprintf("%d:%d", sp.Seed, idx), Observe: true}
 							}
 						}
 					}
@@ -616,7 +633,11 @@ func parentMain(fl *evid.Flags) int {
 			_ = json.Unmarshal(o.Input, &in)
 			obsOut[s] = map[string]interface{}{"flows": o.total, "smallest_case": o.Case, "what": o.Msg, "witness": in}
 		}
-		run.Set("after_events_only_observations_not_violations", obsOut)
+		if fl.Prop == "C15" {
+			run.Set("fault_stage_observations_not_violations", obsOut)
+		} else {
+			run.Set("after_events_only_observations_not_violations", obsOut)
+		}
 	}
 
 	// floors: a run that did not see the situations the property is about is inconclusive
